@@ -317,9 +317,15 @@ class Explorer:
                 for t, v in zip(target.elts, value.elts):
                     self._bind(t, v, p, stmt)
             else:
+                star = [i for i, t in enumerate(target.elts) if isinstance(t, ast.Starred)]
                 for i, t in enumerate(target.elts):
                     if isinstance(t, ast.Starred):
-                        self._bind(t.value, ast.Name(id='<unpack>', ctx=ast.Load()), p, stmt)
+                        # `a, b, *rest = v`: rest holds v[2:] (v[2:-k] with k names after it) - spreading it later gives the same elements
+                        after = len(target.elts) - i - 1
+                        sl = ast.Slice(lower=ast.Constant(value=i) if i else None, upper=ast.Constant(value=-after) if after else None, step=None)
+                        self._bind(t.value, ast.Subscript(value=value, slice=sl, ctx=ast.Load()), p, stmt)
+                    elif star and i > star[0]:
+                        self._bind(t, ast.Subscript(value=value, slice=ast.Constant(value=i - len(target.elts)), ctx=ast.Load()), p, stmt)
                     else:
                         self._bind(t, ast.Subscript(value=value, slice=ast.Constant(value=i), ctx=ast.Load()), p, stmt)
         elif isinstance(target, (ast.Attribute, ast.Subscript)):
